@@ -687,7 +687,7 @@ package websocket
 //@   let T = h.Sessions.sessions[decoded(msg, hagallpb.ParticipantJoinRequest).SessionId]
 //@   let already = h.currentSession != nil && gid(serverid(h.Sessions.DiscoveryService), h.currentSession.ID) == decoded(msg, hagallpb.ParticipantJoinRequest).SessionId
 //@   let found = once_done(h.Sessions.initOnce) && decoded(msg, hagallpb.ParticipantJoinRequest).SessionId in h.Sessions.sessions
-//@   requires wfHandler(h) && wfRegistry(h.Sessions) && respond != nil
+//@   requires wfHandler(h) && wfRegistry(h.Sessions) && respond != nil && handleFrame != nil
 //@   requires found ==> wfSession(T) && T.participantIDs.currentID < 4294967295 && T.frameHandlerIDs.currentID < 4294967295
 //@   requires joined(h) ==> registered(h.Sessions, h.currentSession)
 //@   requires {C03} joined(h) && found && !already ==> sepSessions(h.currentSession, T)
